@@ -102,6 +102,10 @@ type Prop struct {
 	PanicIsViolation bool
 	// Custom, when set, replaces the generic enumerate/check driver in the worker (Engine B).
 	Custom func(w *Worker)
+	// NondeterminismIsViolation: a violation that shows in some but not all of the three executions
+	// of a case is reported (marked intermittent) instead of being discarded as flaky. Only for
+	// properties whose statement is determinism itself (C11).
+	NondeterminismIsViolation bool
 	// StepBudget per Check call (0 = default).
 	StepBudget int64
 }
@@ -296,10 +300,30 @@ func (w *Worker) Exec(c *Case) *Outcome {
 		for i := 0; i < 2; i++ {
 			o2 := SafeCheck(w.P, c)
 			if sigs(o2) != sigs(o) {
+				if w.P.NondeterminismIsViolation {
+					// the property is determinism: an answer that changes between identical runs is the violation
+					for j := range o.Viol {
+						o.Viol[j].Sig += ":intermittent"
+						o.Viol[j].Msg += fmt.Sprintf(" [not on every run: first run %s, a repeat %s]", sigs(o), sigs(o2))
+					}
+					return o
+				}
 				w.Sum.Flaky = append(w.Sum.Flaky, fmt.Sprintf("case %q: first run %s, replay %s", short(c.Key()), sigs(o), sigs(o2)))
 				o.Viol = nil
 				o.Skipped = "flaky"
 				break
+			}
+		}
+	} else if w.P.NondeterminismIsViolation && c.Kind == "history" {
+		// histories touching pooled or cached state may misbehave only sometimes: look twice more
+		for i := 0; i < 2; i++ {
+			if o2 := SafeCheck(w.P, c); len(o2.Viol) > 0 {
+				for j := range o2.Viol {
+					o2.Viol[j].Sig += ":intermittent"
+					o2.Viol[j].Msg += " [not on every run]"
+				}
+				o2.Execs += o.Execs
+				return o2
 			}
 		}
 	}
